@@ -17,6 +17,8 @@
 #include "verif_hook.hpp"
 
 #include <tao/pegtl.hpp>
+#include <tao/pegtl/contrib/check_bytes.hpp>
+#include <tao/pegtl/contrib/control_action.hpp>
 #include <tao/pegtl/contrib/coverage.hpp>
 #include <tao/pegtl/contrib/input_with_depth.hpp>
 #include <tao/pegtl/contrib/integer.hpp>
@@ -24,7 +26,10 @@
 #include <tao/pegtl/contrib/limit_depth.hpp>
 #include <tao/pegtl/contrib/parse_tree.hpp>
 #include <tao/pegtl/contrib/predicates.hpp>
+#include <tao/pegtl/contrib/if_then.hpp>
 #include <tao/pegtl/contrib/rep_one_min_max.hpp>
+#include <tao/pegtl/contrib/rep_string.hpp>
+#include <tao/pegtl/contrib/separated_seq.hpp>
 #include <tao/pegtl/contrib/trace.hpp>
 
 namespace vh
@@ -367,6 +372,41 @@ namespace vh
             act_throw( s, Id );
          }
          return !act_vetoes( s, Id, b, e );
+      }
+   };
+
+   // contrib/control_action.hpp (C08): an action class that receives start / success / failure (/ unwind) around the rule's
+   // match(); the hooks log themselves (`cs`, `csu`, `cfa`, `cuw`).  Not in the Lean model: the lines are dropped for the
+   // comparison and judged by an oracle of their own.
+   template< typename Tag, typename Rule >
+   struct act_ca
+      : pegtl::control_action
+   {
+      template< typename ParseInput, typename... States >
+      static void start( const ParseInput& in, States&&... /*unused*/ )
+      {
+         ev( "cs", vid< Tag, Rule >, in );
+      }
+      template< typename ParseInput, typename... States >
+      static void success( const ParseInput& in, States&&... /*unused*/ )
+      {
+         ev( "csu", vid< Tag, Rule >, in );
+      }
+      template< typename ParseInput, typename... States >
+      static void failure( const ParseInput& in, States&&... /*unused*/ )
+      {
+         ev( "cfa", vid< Tag, Rule >, in );
+      }
+   };
+
+   template< typename Tag, typename Rule >
+   struct act_ca_unwind
+      : act_ca< Tag, Rule >
+   {
+      template< typename ParseInput, typename... States >
+      static void unwind( const ParseInput& in, States&&... /*unused*/ )
+      {
+         ev( "cuw", vid< Tag, Rule >, in );
       }
    };
 
